@@ -77,11 +77,28 @@ def run(ctx):
     recs, meta = pc.real_records(ctx)
     for m in meta:
         m.pop("_layout", None)          # (the file layout of these runs is judged by C10)
+    # sites whose pKa lies far outside the pH range (a buried tyrosine at 20, an acid at -3, a base at 18 or -2): the exact
+    # family cannot hold 10^20 in TLC's integers, the axioms (between zero and the formal charge, never increasing with pH,
+    # totals = sums) are checked on the recorded curves
+    from .. import profiles
+    frecs, fmeta = [], []
+    for sites_ in ([{"q": -1, "pk": 20, "mk": 10}, {"q": 1, "pk": 18, "mk": 12}, {"q": -1, "pk": -3, "mk": 4}],
+                   [{"q": -1, "pk": 17, "mk": 17}, {"q": 1, "pk": -2, "mk": 6}, {"q": -1, "pk": 31, "mk": -20}]):
+        try:
+            frecs.append(profiles.record(pc.set_sites(pc.tiny_mol(), sites_), ("0", "14", "0.5"), ("0", "14", "1"), None))
+            fmeta.append({"input": "far-sites " + json.dumps(sites_), "grid": ("0", "14", "0.5"), "window": ("0", "14", "1"),
+                          "groups": len(sites_), "nodes": 29})
+        except Exception as ex:  # noqa
+            ctx.violation("family:far-sites:exception", f"sites {sites_}: {ex!r}", {"sites": sites_})
     for m in meta:
         if "exc" in m:
             ctx.violation(f"run:exception:{m['input']}", f"{m}", m)
         elif m.get("groups", 0) >= 1:
             ctx.nontriv(json.dumps(m))
+    if frecs:
+        for inv, ms in sorted(pc.validate(ctx, frecs, fmeta, ["Axioms", "SumOfGroups"]).items()):
+            for m in ms[:2]:
+                ctx.violation(f"trace:{inv}:far-sites", f"{inv} violated on {m}", m)
     viol = pc.validate(ctx, recs, meta, pc.C09_INV, pc.C09_DIAG)
     for inv, ms in sorted(viol.items()):
         if inv in pc.C09_DIAG:
